@@ -210,7 +210,7 @@ func (e *Expr) CompileExpr(terms ast.Expr, env0 *types.Env) compiler.Closure {
 	}
 	e.logf("transed: %s\n", transed)
 
-	checkEnv := env0.Inherit(e.typeCheck)
+	checkEnv := env0.Extend(e.typeCheck)
 	infered := types.Check(transed, checkEnv)
 	e.logf("type: %s\n", infered)
 
@@ -237,7 +237,7 @@ func (e *Expr) makeCallable(closure compiler.Closure, env0 *types.Env) Callable 
 
 		// 运行时的失败(下标越界, key 不存在, 除零, 非法正则 ...)通过 error 返回, 不向宿主抛 panic
 		defer e.backStrace("eval", &err)
-		rt := env1.Inherit(e.runtime)
+		rt := env1.Extend(e.runtime)
 		vl = closure(rt)
 		return
 	}
